@@ -15,7 +15,7 @@ func init() { Registry["C06"] = c06 }
 func c06(e *Env) {
 	r := e.R
 	isDrainingChild(e)
-	r.Rule("every one of the 170 types × values (even cases canonical, odd cases arbitrary; only values that encode without error are judged) × buffer history H1..H9; plus mixed-type sequences of up to 20 messages into one buffer with random partial drains in between and, before one message in six, an encode that must FAIL (65 536 elements behind a 16-bit count, an unregistered key, or a caller-supplied body that writes N bytes and then refuses - bare or inside its frame) into a buffer that is thrown away; the whole check is repeated in a child whose checksum services read the buffer they are handed to its end. distinct_nontrivial = distinct (non-zero value hash, history) pairs + distinct sequences")
+	r.Rule("every one of the 170 types × values (even cases canonical, odd cases arbitrary; only values that encode without error are judged) × buffer history H1..H9; plus mixed-type sequences of up to 20 messages into one buffer with random partial drains in between and, before one message in six, an encode that must FAIL (at every 8/16-bit prefixed site of every type: one element too many, a text one byte too long, one list element one byte too long; an unregistered key, or a caller-supplied body that writes N bytes and then refuses - bare or inside its frame) into a buffer that is thrown away; the whole check is repeated in a child whose checksum services read the buffer they are handed to its end. distinct_nontrivial = distinct (non-zero value hash, history) pairs + distinct sequences")
 	r.Explain("Oracle per encode: (i) the unread bytes present before the call are unchanged afterwards; (ii) the appended bytes equal the bytes obtained by encoding a deep clone (taken before the first encode) into a fresh empty buffer; (iii) encoding the same object a second and a third time into fresh buffers gives the same bytes (computed fields and materialised bodies do not change the result); (iv) for a sequence m1..mn with random drains, the final unread content equals the concatenation of the individual fresh encodings minus the drained prefix.")
 	r.Assume("bytes.Buffer itself is correct")
 	types := e.Types()
@@ -131,10 +131,11 @@ func c06(e *Env) {
 		var failers []any
 		for _, t := range e.S.Order {
 			for _, s := range lenSites(t) {
-				if s.what != "count" || s.max != 0xFFFF {
+				if s.max > 0xFFFF {
 					continue
 				}
-				g := &gen.Gen{S: e.S, C: e.C, R: gen.NewRng(e.Seed, "C06", "failer", t.QName), O: &gen.Opts{Lens: []int{1}, StrLens: []int{2}}}
+				// every kind of refusal: too many elements, a text too long for its prefix, one list element too long
+				g := &gen.Gen{S: e.S, C: e.C, R: gen.NewRng(e.Seed, "C06", "failer", t.QName, s.field.Name, s.what), O: &gen.Opts{Lens: []int{1}, StrLens: []int{2}}}
 				v := g.Value(t)
 				setLen(e, t, v, s, s.max+1, g)
 				failers = append(failers, v)
@@ -155,7 +156,6 @@ func c06(e *Env) {
 						}
 					}
 				}
-				break
 			}
 		}
 		// every frame and every extension carrier with a caller-supplied body that writes a few bytes and then fails
